@@ -314,6 +314,16 @@ func (store *HStore) GC(bucketID, beginChunkID, endChunkID, noGCDays int, merge,
 	}
 
 	verifhook.Point("gc.request.checked", bucketID, begin, end)
+	// claim the bucket before the pass is spawned: the pass registers itself only once its goroutine
+	// runs, so two requests in a row would both pass the check above
+	store.gcMgr.mu.Lock()
+	if _, exists := store.gcMgr.stat[bkt]; exists {
+		store.gcMgr.mu.Unlock()
+		err = fmt.Errorf("gc on bkt: %d already running", bucketID)
+		return
+	}
+	store.gcMgr.stat[bkt] = &GCState{Begin: begin, End: end, Src: begin, Dst: begin, Running: true}
+	store.gcMgr.mu.Unlock()
 	go store.gcMgr.gc(bkt, begin, end, merge)
 	return
 }
